@@ -58,9 +58,34 @@ def rsp_of(cmd):
     return m[0] if m else ""
 
 
+def prove(work: Path):
+    """TLAPS: Spec => []ReadsOwn for EVERY graph and any number of jobs, provided no two edges name one response file
+    (ScratchProof.tla).  -> (ok, summary line)"""
+    import subprocess
+
+    d = work / "scr-proof"
+    d.mkdir(parents=True, exist_ok=True)
+    for f in ("Scratch.tla", "ScratchProof.tla"):
+        shutil.copy(common.SPEC / f, d / f)
+    try:
+        p = subprocess.run(["tlapm", "--toolbox", "0", "0", "ScratchProof.tla"], cwd=str(d), stdout=subprocess.PIPE,
+                           stderr=subprocess.STDOUT, text=True, errors="replace", timeout=1500)
+    except (OSError, subprocess.TimeoutExpired) as e:
+        return None, f"tlapm did not finish: {e}"
+    m = re.search(r"All (\d+) obligations? proved", p.stdout)
+    if m:
+        return True, f"tlapm: all {m.group(1)} obligations proved"
+    m = re.search(r"(\d+)/(\d+) obligations failed", p.stdout)
+    return False, ("tlapm: " + (m.group(0) if m else p.stdout[-300:]))
+
+
 def run(chk, work: Path):
+    from concurrent.futures import ThreadPoolExecutor as _TPE
+
     quick = chk.tier == "quick"
     jobs = 2 if quick else 3
+    _ex = _TPE(1)
+    proof = _ex.submit(prove, work)
     negative_done = 0
     for fam in families():
         g = ninja_graph.extract(work / f"scr-x-{fam['name']}", fam["sources"], fam["args"], configs=fam["configs"])
@@ -97,6 +122,12 @@ def run(chk, work: Path):
             negative_done += 1
     if not negative_done:
         raise MachineryError("no family has two edges of one rule with response files: Scratch.tla explores nothing of interest")
+    ok, line = proof.result()
+    _ex.shutdown()
+    chk.notes["scratch_proof"] = line
+    if ok is False:
+        raise MachineryError("ScratchProof.tla no longer proves (Scratch.tla changed without its proof?): " + line)
+    # the theorem's hypothesis, measured on the real graphs: it is what TLC's verdicts above amount to
     # ---- real runs: -j1 against -j16, repeated
     reps = 2 if quick else 5
 
